@@ -15,7 +15,7 @@ PROPERTY = "C18"
 LEVEL = "fault_enumeration"
 RULE = ("fault sequences = injection iteration k in 0..n-1 (n=6, exhaustive) x origin (loss value, gradient of a "
         "network leaf, gradient of an equation parameter, optimizer update, one entry only of a multi-entry leaf in the "
-        "gradient / in the update, and an update making an equation parameter +inf followed by the NaN it causes) x optimizer (sgd, adam) x loss (ODE, "
+        "gradient / in the update, an update making an equation parameter +inf followed by the NaN it causes, and a NaN in the loss VALUE only - finite gradient, training goes on - from iteration j on or at j only, followed by a real fault at k2 > j) x optimizer (sgd, adam) x loss (ODE, "
         "stationary) + fault-free controls + two faults k1<k2; non-trivial = a fault with k >= 1 (last finite "
         "parameters differ from the initial ones); distinct = distinct (loss, optimizer, origin, k[, k2])")
 ASSUMPTIONS = [
@@ -24,8 +24,8 @@ ASSUMPTIONS = [
     "histories compared at rtol 1e-6 (see C07), NaN patterns exactly",
 ]
 TIMEOUT = {"quick": 1800, "thorough": 5400}
-MIN_COUNTERS = {"quick": {"fault_runs": 40, "faults_with_k_ge_1": 30, "control_runs": 1, "inf_then_nan_runs": 4, "fault_runs_with_refinement_enabled": 8},
-                "thorough": {"fault_runs": 160, "faults_with_k_ge_1": 120, "control_runs": 4, "inf_then_nan_runs": 16, "fault_runs_with_refinement_enabled": 32}}
+MIN_COUNTERS = {"quick": {"fault_runs": 40, "faults_with_k_ge_1": 30, "control_runs": 1, "inf_then_nan_runs": 4, "fault_runs_with_refinement_enabled": 8, "runs_with_nan_loss_value_and_finite_gradient": 6},
+                "thorough": {"fault_runs": 160, "faults_with_k_ge_1": 120, "control_runs": 4, "inf_then_nan_runs": 16, "fault_runs_with_refinement_enabled": 32, "runs_with_nan_loss_value_and_finite_gradient": 24}}
 N_ITER = 6
 ORIGINS = ["loss", "grad_nn", "grad_eq", "update", "grad_nn_entry", "update_entry"]
 
@@ -51,7 +51,41 @@ def gen_cases(tier, seed):
             cases.append(dict(loss=loss, opt=opt, origin="update_inf", k=k, k2=None, seed=seed, cost=1.0))
         for (o1, k1, o2, k2) in (("grad_nn", 1, "update", 3), ("update", 2, "loss", 4), ("loss", 0, "grad_eq", 5)):
             cases.append(dict(loss=loss, opt=opt, origin=o1, k=k1, origin2=o2, k2=k2, seed=seed, cost=1.0))
+        # a NaN in the VALUE of the loss only (finite gradient, e.g. under stop_gradient or in the unselected branch of
+        # a where): the parameters stay finite, so this is not a failure and training goes on; it lasts from iteration j
+        # on (or for one iteration only), and a real fault follows at k2 > j: the parameters to return are those held
+        # just before k2, which were produced by iterations whose loss value was NaN
+        for (j, o2, k2, lasting) in ((0, "grad_eq", 3, True), (1, "update", 4, True), (2, "grad_nn", 5, True),
+                                     (3, "update_entry", 4, True), (1, "grad_eq", 2, False), (2, "update", 5, False),
+                                     (0, "none", None, True)):
+            cases.append(dict(loss=loss, opt=opt, origin="loss_value_only", k=j, origin2=o2, k2=k2, lasting=lasting,
+                              seed=seed, cost=1.0))
     return cases
+
+
+_VALUE_ONLY = {}
+
+
+def ValueOnlyNaN(**kw):
+    """the user's loss wrapped so that its VALUE is NaN from iteration j on (or at j only) while its gradient stays finite"""
+    if "cls" not in _VALUE_ONLY:
+        import equinox as eqx
+        import jax
+        import jax.numpy as jnp
+
+        class _ValueOnlyNaN(eqx.Module):
+            inner: eqx.Module
+            j: jax.Array
+            lasting: bool = eqx.field(static=True)
+
+            def __call__(self, params, batch):
+                val, terms = self.inner(params, batch)
+                tick = jnp.sum(params.eq_params["tick"])
+                hit = (tick >= self.j) if self.lasting else (tick == self.j)
+                return val + jax.lax.stop_gradient(jnp.where(hit, jnp.nan, 0.0)), terms
+
+        _VALUE_ONLY["cls"] = _ValueOnlyNaN
+    return _VALUE_ONLY["cls"](**kw)
 
 
 def make_chain(base, faults):
@@ -111,7 +145,8 @@ def run_case(case, rec):
     eqt = "ODE" if kind == "ode" else "statio_PDE"
     net = nets.Net(fields.TrigField(case["seed"] + 3, D, 1), eqt, reads=("theta", "phi"))
     spec = eqs.ResidSpec(case["seed"] + 3, 2, 1, D)
-    faults = [(case["origin"], case["k"])] if case["origin"] != "none" else []
+    value_only = case["origin"] == "loss_value_only"
+    faults = [(case["origin"], case["k"])] if case["origin"] != "none" and not value_only else []
     if case.get("k2") is not None:
         faults.append((case["origin2"], case["k2"]))
     kloss = [k for o, k in faults if o == "loss"]
@@ -124,7 +159,7 @@ def run_case(case, rec):
         dk = jinns.parameters.DerivativeKeysODE.from_str(params, dyn_loss="both", initial_condition="both", observations="both")
         loss = jinns.loss.LossODE(u=u, dynamic_loss=dyn, initial_condition=(0.0, jnp.asarray([0.4])), derivative_keys=dk, params=params)
         gd = dict(kind="ode", key=case["seed"] % 997, nt=7, bt=3, tmin=0.0, tmax=1.0)
-        if case["k"] % 3 == 2:
+        if case["k"] % 3 == 2 and not value_only:
             # the same fault while another option of solve() is in use: a generator with residual-adaptive refinement
             # switched on (burn-in longer than the run: no refinement step, but the refinement code path is taken)
             gd.update(nt=9, nt_start=7, rar=dict(start_iter=50, update_every=2, sample_size_times=4, selected_sample_size_times=1))
@@ -135,10 +170,13 @@ def run_case(case, rec):
         loss = jinns.loss.LossPDEStatio(u=u, dynamic_loss=dyn, omega_boundary_fun=lambda dx: 0.2, omega_boundary_condition="dirichlet",
                                         derivative_keys=dk, params=params)
         gd = dict(kind="statio", key=case["seed"] % 997, n=7, b=3, dim=2, min_pts=[-1.0, 0.0], max_pts=[1.0, 2.0], nb=16, bb=3)
-        if case["k"] % 3 == 2:
+        if case["k"] % 3 == 2 and not value_only:
             gd.update(n=9, n_start=7, rar=dict(start_iter=50, update_every=2, sample_size_omega=4, selected_sample_size_omega=1))
             rec.count("fault_runs_with_refinement_enabled")
         data = gens.make_generator(gd)
+    if value_only:
+        loss = ValueOnlyNaN(inner=loss, j=jnp.asarray(float(case["k"])), lasting=bool(case["lasting"]))
+        rec.count("runs_with_nan_loss_value_and_finite_gradient")
     base = optax.sgd(1e-3) if case["opt"] == "sgd" else optax.adam(1e-3)
     opt = make_chain(base, faults)
     tracked = Params(nn_params=None, eq_params={"theta": True, "phi": None, "kappa": None, "tick": True})
@@ -151,7 +189,7 @@ def run_case(case, rec):
                      tracked_params=tracked, **verb)
     ref = refloop.ref_loop(n, params, data, loss, opt, tracked=tracked, prime=1)
     first = min([k for _, k in faults]) if faults else None
-    sig = "nan-stop/%s" % (case["origin"] if not case.get("k2") else "two-faults")
+    sig = "nan-stop/%s" % ("value-only-nan-then-fault" if value_only else case["origin"] if not case.get("k2") else "two-faults")
     label = "%s/%s origin=%s k=%s k2=%s" % (kind, case["opt"], case["origin"], case["k"], case.get("k2"))
     if faults:
         rec.count("fault_runs")
